@@ -33,7 +33,7 @@ def main():
         env = dict(os.environ)
         # baseline: the demo on the clean export (pure-Python modules, as in the seeding agent's worktree)
         r0 = sh(["/venv/bin/python", f"{out_dir}/demo.py"], env=dict(env, PYTHONPATH=f"{d}/lib"), timeout=900)
-        if "--with-so" in a or pid == "C55":
+        if "--with-so" in a or pid.startswith("C55"):
             # C55 compares the prebuilt compiled extensions with the (patched) pure-Python modules: keep the .so files beside them
             sh(f"cd /repo/lib && find . -name '*.so' -exec cp --parents {{}} {d}/lib/ \\;")
         r = sh(f"cd {d} && git init -q . && git apply --whitespace=nowarn {out_dir}/patch.diff")
